@@ -1,5 +1,5 @@
 (** C35 — invariants of phase one under every schedule (any number of height
-    goroutines, aliasing included): what is asked and handed over is always
+    goroutines on the shared array and on their own lists): what is asked and handed over is always
     justified by the inputs, and a goroutine that returned successfully has
     handed a block over. *)
 From Coq Require Import List ZArith NArith Bool Arith Lia Permutation.
@@ -13,13 +13,12 @@ Definition log_ok (c : config) (o : obs) : Prop :=
   | OInit l => l = job_peers c
   | OReq h p => In h (heights c) /\ In p (job_peers c) /\ (h <=? c_adv c p)%Z = true
   | ODeliver bh p =>
-      exists h, In h (heights c) /\ In p (job_peers c) /\ (h <=? c_adv c p)%Z = true
-                /\ exists a, accepted (c_beh c p h) = Some a /\ bh = deliver_height h a
+      In bh (heights c) /\ In p (job_peers c) /\ (bh <=? c_adv c p)%Z = true
+      /\ accepted (c_beh c p bh) = true
   end.
 
 Definition has_delivery (c : config) (h : Z) (log : list obs) : Prop :=
-  exists p a, In p (job_peers c) /\ accepted (c_beh c p h) = Some a
-              /\ In (ODeliver (deliver_height h a) p) log.
+  exists p, In p (job_peers c) /\ accepted (c_beh c p h) = true /\ In (ODeliver h p) log.
 
 Definition handed_over (p : pc) : bool :=
   match p with POkRel _ | PDone true => true | _ => false end.
@@ -28,6 +27,7 @@ Definition asking (p : pc) : option nat := match p with PReq t => Some t | _ => 
 
 Record Inv (c : config) (hs : list Z) (s : state) : Prop := mkInv {
   inv_arr : Forall (fun t => t < ntasks c) (s_arr s);
+  inv_own : forall g l, g_own (nth g (s_gs s) dummy_g) = Some l -> Forall (fun t => t < ntasks c) l;
   inv_hs : map g_h (s_gs s) = hs;
   inv_sub : incl hs (heights c);
   inv_req : forall g t, asking (g_pc (nth g (s_gs s) dummy_g)) = Some t ->
@@ -36,6 +36,13 @@ Record Inv (c : config) (hs : list Z) (s : state) : Prop := mkInv {
   inv_ok : forall g, handed_over (g_pc (nth g (s_gs s) dummy_g)) = true ->
       has_delivery c (g_h (nth g (s_gs s) dummy_g)) (s_log s)
 }.
+
+Lemma view_valid c hs s g : Inv c hs s -> Forall (fun t => t < ntasks c) (view s (nth g (s_gs s) dummy_g)).
+Proof.
+  intro HI. unfold view. destruct (g_own (nth g (s_gs s) dummy_g)) as [l|] eqn:E.
+  - apply (inv_own _ _ _ HI g l E).
+  - apply (inv_arr _ _ _ HI).
+Qed.
 
 (** * List facts *)
 
@@ -51,19 +58,17 @@ Proof.
   right. apply (IH n H).
 Qed.
 
-Lemma sort_view_in ts arr vlen x : In x (sort_view ts arr vlen) -> In x arr.
+Lemma sort_tasks_in ts l x : In x (sort_tasks ts l) <-> In x l.
 Proof.
-  unfold sort_view. intro H. apply in_app_or in H. destruct H as [H|H].
-  - apply (Permutation_in _ (isort_perm _ _)) in H. apply (in_firstn _ _ _ H).
-  - apply (in_skipn _ _ _ H).
+  unfold sort_tasks. split; intro H.
+  - apply (Permutation_in _ (isort_perm _ _) H).
+  - apply (Permutation_in _ (Permutation_sym (isort_perm _ _)) H).
 Qed.
 
-Lemma remove_shared_in arr vlen i x : In x (remove_shared arr vlen i) -> In x arr.
+Lemma sort_tasks_valid (P : nat -> Prop) ts l : Forall P l -> Forall P (sort_tasks ts l).
 Proof.
-  unfold remove_shared. intro H. apply in_app_or in H. destruct H as [H|H]; [apply (in_firstn _ _ _ H)|].
-  apply in_app_or in H. destruct H as [H|H].
-  - apply in_skipn in H. apply (in_firstn _ _ _ H).
-  - apply (in_skipn _ _ _ H).
+  intro H. apply Forall_forall. intros x Hx. apply sort_tasks_in in Hx.
+  apply (proj1 (Forall_forall _ _) H x Hx).
 Qed.
 
 Lemma map_upd {A B} (f : A -> B) (l : list A) i v d :
@@ -94,26 +99,28 @@ Qed.
 Lemma inv_init c hs : incl hs (heights c) -> Inv c hs (init_state (init_job c) hs).
 Proof.
   intro Hsub.
-  assert (Hpc : forall g, g_pc (nth g (map (fun h => mkG h (length (init_job c)) 0 PStart) hs) dummy_g) = PStart
-                          \/ g_pc (nth g (map (fun h => mkG h (length (init_job c)) 0 PStart) hs) dummy_g) = PDone false).
+  assert (Hnth : forall g, nth g (map (fun h => mkG h None 0 PStart) hs) dummy_g = dummy_g
+                           \/ exists h, nth g (map (fun h => mkG h None 0 PStart) hs) dummy_g = mkG h None 0 PStart).
   { intro g. destruct (Nat.lt_ge_cases g (length hs)) as [Hl|Hl].
-    - left. rewrite (nth_indep _ dummy_g (mkG 0%Z (length (init_job c)) 0 PStart)) by (rewrite map_length; exact Hl).
-      rewrite (map_nth (fun h => mkG h (length (init_job c)) 0 PStart) hs 0%Z g). reflexivity.
-    - right. rewrite nth_overflow by (rewrite map_length; exact Hl). reflexivity. }
+    - right. exists (nth g hs 0%Z).
+      rewrite (nth_indep _ dummy_g (mkG 0%Z None 0 PStart)) by (rewrite map_length; exact Hl).
+      apply (map_nth (fun h => mkG h None 0 PStart) hs 0%Z g).
+    - left. apply nth_overflow. rewrite map_length. exact Hl. }
   constructor; unfold init_state; cbn [s_arr s_gs s_log].
   - apply Forall_forall. intros t Ht. apply in_seq in Ht. unfold ntasks. lia.
+  - intros g l H. exfalso. destruct (Hnth g) as [E|[h E]]; rewrite E in H; discriminate.
   - rewrite map_map. simpl. apply map_id.
   - exact Hsub.
-  - intros g t H. exfalso. destruct (Hpc g) as [E|E]; rewrite E in H; discriminate.
+  - intros g t H. exfalso. destruct (Hnth g) as [E|[h E]]; rewrite E in H; discriminate.
   - intros o Ho. pose proof (init_job_peers c) as Hp.
     destruct (init_job c); [inversion Ho|]. destruct Ho as [<-|[]]. exact Hp.
-  - intros g H. exfalso. destruct (Hpc g) as [E|E]; rewrite E in H; discriminate.
+  - intros g H. exfalso. destruct (Hnth g) as [E|[h E]]; rewrite E in H; discriminate.
 Qed.
 
 (** * Preservation *)
 
 Lemma has_delivery_mono c h log o : has_delivery c h log -> has_delivery c h (o :: log).
-Proof. intros [p [a [H1 [H2 H3]]]]. exists p, a. repeat split; auto. right. exact H3. Qed.
+Proof. intros [p [H1 [H2 H3]]]. exists p. repeat split; auto. right. exact H3. Qed.
 
 Lemma g_h_in c hs s g : Inv c hs s -> g < length (s_gs s) -> In (g_h (nth g (s_gs s) dummy_g)) (heights c).
 Proof.
@@ -128,16 +135,21 @@ Lemma inv_replace c hs s g G' arr' log' :
   Inv c hs s -> g < length (s_gs s) ->
   g_h G' = g_h (nth g (s_gs s) dummy_g) ->
   Forall (fun t => t < ntasks c) arr' ->
+  (forall l, g_own G' = Some l -> Forall (fun t => t < ntasks c) l) ->
   (forall o, In o log' -> In o (s_log s) \/ log_ok c o) ->
   (forall o, In o (s_log s) -> In o log') ->
   (forall t, asking (g_pc G') = Some t ->
      t < ntasks c /\ (g_h G' <=? c_adv c (task_peer (init_job c) t))%Z = true) ->
   (handed_over (g_pc G') = true -> has_delivery c (g_h G') log') ->
-  forall tn' idx', Inv c hs (mkState arr' tn' idx' (upd (s_gs s) g G') log').
+  forall tn', Inv c hs (mkState arr' tn' (upd (s_gs s) g G') log').
 Proof.
-  intros HI Hg Hh Harr Hlog Hmono Hreq Hok tn' idx'.
+  intros HI Hg Hh Harr Hown Hlog Hmono Hreq Hok tn'.
   constructor; cbn [s_arr s_gs s_log].
   - exact Harr.
+  - intros g' l. rewrite nth_upd.
+    destruct ((g =? g') && (g <? length (s_gs s))) eqn:E.
+    + apply Hown.
+    + apply (inv_own _ _ _ HI).
   - rewrite (map_upd g_h (s_gs s) g G' dummy_g Hh). apply (inv_hs _ _ _ HI).
   - apply (inv_sub _ _ _ HI).
   - intros g' t. rewrite nth_upd.
@@ -148,8 +160,8 @@ Proof.
   - intros g'. rewrite nth_upd.
     destruct ((g =? g') && (g <? length (s_gs s))) eqn:E.
     + apply Hok.
-    + intro H. destruct (inv_ok _ _ _ HI g' H) as [p [a [H1 [H2 H3]]]].
-      exists p, a. repeat split; auto.
+    + intro H. destruct (inv_ok _ _ _ HI g' H) as [p [H1 [H2 H3]]].
+      exists p. repeat split; auto.
 Qed.
 
 Lemma step_inv c hs s e s' : Inv c hs s -> step c (init_job c) s e = Some s' -> Inv c hs s'.
@@ -159,28 +171,30 @@ Proof.
   apply Nat.ltb_lt in Hlt.
   set (g := ev_g e) in *. set (G := nth g (s_gs s) dummy_g) in *.
   assert (Hsame : forall o, In o (s_log s) -> In o (s_log s) \/ log_ok c o) by (intros; left; assumption).
+  assert (Hown : forall l, g_own G = Some l -> Forall (fun t => t < ntasks c) l)
+    by (intros l Hl; apply (inv_own _ _ _ HI g l Hl)).
+  pose proof (view_valid c hs s g HI) as Hvv. fold G in Hvv.
   destruct e; simpl in H; destruct (g_pc G) eqn:Hpc; try discriminate.
   - (* Sort *)
-    inversion H; subst; clear H.
-    apply inv_replace; auto.
-    + apply Forall_forall. intros t Ht. apply sort_view_in in Ht.
-      apply (proj1 (Forall_forall _ _) (inv_arr _ _ _ HI) t Ht).
-    + cbn. intros t Ht. discriminate.
-    + cbn. discriminate.
+    destruct (g_own G) as [l|] eqn:Hgo; inversion H; subst; clear H; unfold set_g.
+    + apply inv_replace; auto; try (cbn; intros; discriminate).
+      * apply (inv_arr _ _ _ HI).
+      * cbn. intros l' Hl'. inversion Hl'; subst. apply sort_tasks_valid. apply Hown. reflexivity.
+    + apply inv_replace; auto; try (cbn; intros; discriminate).
+      apply sort_tasks_valid. apply (inv_arr _ _ _ HI).
   - (* Pick *)
-    destruct (g_vlen G =? 0).
+    destruct (length (view s G) =? 0).
     { inversion H; subst; clear H. unfold set_g.
       apply inv_replace; auto; try (apply (inv_arr _ _ _ HI)); cbn; intros; discriminate. }
     destruct (max_retry <? S (g_retry G)).
     { inversion H; subst; clear H. unfold set_g.
       apply inv_replace; auto; try (apply (inv_arr _ _ _ HI)); cbn; intros; discriminate. }
-    destruct (scan c (init_job c) (s_tnum s) (g_h G) (limit_of (g_vlen G)) (firstn (g_vlen G) (s_arr s)) 0)
+    destruct (scan c (init_job c) (s_tnum s) (g_h G) (limit_of (length (view s G))) (view s G) 0)
       as [[t i]|] eqn:Hs.
     + inversion H; subst; clear H.
       destruct (scan_some _ _ _ _ _ _ _ _ _ Hs) as [_ [Hi [Hnth [Hadv _]]]]. rewrite Nat.sub_0_r in *.
       assert (Ht : t < ntasks c).
-      { apply (proj1 (Forall_forall _ _) (inv_arr _ _ _ HI) t).
-        apply (in_firstn _ (g_vlen G)). rewrite <- Hnth. apply nth_In. exact Hi. }
+      { apply (proj1 (Forall_forall _ _) Hvv t). rewrite <- Hnth. apply nth_In. exact Hi. }
       assert (Hel : (g_h G <=? c_adv c (task_peer (init_job c) t))%Z = true)
         by (apply Z.leb_le; apply Z.ltb_ge in Hadv; exact Hadv).
       apply inv_replace; auto.
@@ -195,19 +209,17 @@ Proof.
   - (* Result *)
     assert (Hask : asking (g_pc G) = Some t) by (rewrite Hpc; reflexivity).
     destruct (inv_req _ _ _ HI g t Hask) as [Ht Hel]. fold G in Hel.
-    destruct (is_stall (c_beh c (task_peer (init_job c) t) (g_h G))); [discriminate|].
-    destruct (accepted (c_beh c (task_peer (init_job c) t) (g_h G))) as [a|] eqn:Ha.
+    destruct (accepted (c_beh c (task_peer (init_job c) t) (g_h G))) eqn:Ha.
     + inversion H; subst; clear H.
       apply inv_replace; auto.
       * apply (inv_arr _ _ _ HI).
       * intros o [<-|Ho]; [right|left; exact Ho].
-        cbn. exists (g_h G). split; [apply (g_h_in c hs s g HI Hlt)|].
-        split; [apply task_peer_in; exact Ht|]. split; [exact Hel|].
-        exists a. split; [exact Ha|]. destruct a; reflexivity.
+        cbn. split; [apply (g_h_in c hs s g HI Hlt)|].
+        split; [apply task_peer_in; exact Ht|]. split; [exact Hel|exact Ha].
       * intros o Ho. right. exact Ho.
       * cbn. intros; discriminate.
-      * cbn. intros _. exists (task_peer (init_job c) t), a.
-        split; [apply task_peer_in; exact Ht|]. split; [exact Ha|]. left. destruct a; reflexivity.
+      * cbn. intros _. exists (task_peer (init_job c) t).
+        split; [apply task_peer_in; exact Ht|]. split; [exact Ha|]. left. reflexivity.
     + inversion H; subst; clear H. unfold set_g.
       apply inv_replace; auto; try (apply (inv_arr _ _ _ HI)); cbn; intros; discriminate.
   - (* Release after a failure *)
@@ -219,15 +231,12 @@ Proof.
     + cbn. intros; discriminate.
     + cbn. intros _. apply (inv_ok _ _ _ HI g). fold G. rewrite Hpc. reflexivity.
   - (* Remove *)
-    destruct (g_vlen G <? nth t (s_idx s) 0 + 1).
-    + inversion H; subst; clear H. unfold set_g.
-      apply inv_replace; auto; try (apply (inv_arr _ _ _ HI)); cbn; intros; discriminate.
-    + inversion H; subst; clear H.
-      apply inv_replace; auto.
-      * apply Forall_forall. intros x Hx. apply remove_shared_in in Hx.
-        apply (proj1 (Forall_forall _ _) (inv_arr _ _ _ HI) x Hx).
-      * cbn. intros; discriminate.
-      * cbn. discriminate.
+    inversion H; subst; clear H. unfold set_g.
+    apply inv_replace; auto.
+    + apply (inv_arr _ _ _ HI).
+    + cbn. intros l Hl. inversion Hl; subst. apply forall_without. exact Hvv.
+    + cbn. intros; discriminate.
+    + cbn. discriminate.
   - (* Sleep *)
     inversion H; subst; clear H. unfold set_g.
     apply inv_replace; auto; try (apply (inv_arr _ _ _ HI)); cbn; intros; discriminate.
@@ -285,19 +294,3 @@ Proof.
   split; [apply nth_In; exact Hg|]. rewrite Hpc. reflexivity.
 Qed.
 
-(** under the invariant nobody waits forever when no given peer is silent *)
-Definition no_stall (c : config) : bool := forallb (no_stall_at c) (heights c).
-
-Lemma inv_no_waiting c hs s :
-  Inv c hs s -> no_stall c = true ->
-  forall g, g < length (s_gs s) -> waits_forever c (init_job c) (nth g (s_gs s) dummy_g) = false.
-Proof.
-  intros HI Hns g Hg. unfold waits_forever.
-  destruct (g_pc (nth g (s_gs s) dummy_g)) eqn:Hpc; try reflexivity.
-  assert (Hask : asking (g_pc (nth g (s_gs s) dummy_g)) = Some t) by (rewrite Hpc; reflexivity).
-  destruct (inv_req _ _ _ HI g t Hask) as [Ht _].
-  pose proof (g_h_in c hs s g HI Hg) as Hh.
-  pose proof (proj1 (forallb_forall _ _) Hns _ Hh) as H1. unfold no_stall_at in H1.
-  pose proof (proj1 (forallb_forall _ _) H1 _ (task_peer_in c t Ht)) as H2. cbv beta in H2.
-  apply negb_true_iff in H2. exact H2.
-Qed.
